@@ -369,12 +369,15 @@ func filterMerge(ctx stick.Context, val stick.Value, args ...stick.Value) stick.
 		return nil
 	}
 
-	outMap, isObject := val.(map[string]stick.Value)
+	valMap, isObject := val.(map[string]stick.Value)
 
 	if isObject {
-		argMap, ok := args[0].(map[string]stick.Value)
-
-		if ok {
+		// The result is a new hash: the filtered value must not be modified.
+		outMap := make(map[string]stick.Value, len(valMap))
+		for k, v := range valMap {
+			outMap[k] = v
+		}
+		if argMap, ok := args[0].(map[string]stick.Value); ok {
 			for k, v := range argMap {
 				outMap[k] = v
 			}
